@@ -405,6 +405,32 @@ def structure_case(case):
                 _viol(viol, tag, aspect, what, where + msg, case, FN_S)
 
         n += fn(add)
+    # "splitting changes nothing": the grid that was split is still an ordinary whole grid - it is none of the sub-grids,
+    # it can be split again (same decomposition and another one) and it still takes inhomogeneous conditions
+    from pde.grids._mesh import GridMesh
+
+    n += 1
+    if any(sub is grid for sub in mesh.subgrids.flat) or getattr(grid, "_mesh", None) is not None:
+        _viol(viol, tag, "tiling", "the grid that was split became a sub-grid of the mesh", where + "a sub-grid is the base grid object", case, FN_S)
+    try:
+        again = GridMesh.from_grid(grid, decomp)
+        other = GridMesh.from_grid(grid, [1] * len(decomp))
+        ok = tuple(again.shape) == tuple(mesh.shape) and [tuple(g.shape) for g in again.subgrids.flat] == [tuple(g.shape) for g in mesh.subgrids.flat]
+        ok = ok and len(other) == 1
+        if not ok:
+            _viol(viol, tag, "tiling", "splitting the same grid again gives another mesh", where, case, FN_S)
+        if not all(geo["periodic"]):
+            from pde import ScalarField
+
+            def per_axis(cond):
+                return {a: ("periodic" if p else cond) for a, p in zip(geo["axes"], geo["periodic"])}
+
+            grid.get_boundary_conditions(per_axis({"value": 1.5}))
+            f = ScalarField(grid, 1.0)
+            f.set_ghost_cells(per_axis({"value_expression": "1 + " + geo["axes"][0]}))
+    except Exception as e:  # noqa: BLE001
+        _viol(viol, tag, "tiling", "the grid that was split cannot be used as a whole grid afterwards",
+              where + f"{type(e).__name__}: {str(e)[:120]}", case, FN_S)
     return {"v": viol[:6], "n": n, "out": features(geo, mod.sizes), "key": f"{grid_name(spec)}|{decomp}"}
 
 
